@@ -212,7 +212,8 @@ pub fn byte_intrinsics(rng: &mut Rng, n: usize) -> Vec<Tpl> {
 // function must return a compatible type", "`?` works with `option` too, but the enclosing function must return an
 // `option`"): accepted exactly when both are options, or both are results with the same error type
 // ------------------------------------------------------------------------------------------------
-pub fn try_mixed() -> Vec<Tpl> {
+/// (template, operand family, return family) — families in the spelling of the Lean driver op `trycompat`
+pub fn try_mixed_cases() -> Vec<(Tpl, String, String)> {
     // (operand type, operand value, class, propagated text or "" when the operand is present)
     let operands: [(&str, &str, &str, &str); 8] = [
         ("option<int>", ".some(1)", "option", ""),
@@ -258,11 +259,19 @@ pub fn try_mixed() -> Vec<Tpl> {
                 } else {
                     Expect::Out(format!("{prop}\nend\n"))
                 };
-                v.push(tpl(format!("try-mixed operand#{oi} {oty} / return#{ri} {rty} / form {form}"), if accepted { "try-mixed:accepted" } else { "try-mixed:rejected" }, &["C23"], src, expect));
+                v.push((
+                    tpl(format!("try-mixed operand#{oi} {oty} / return#{ri} {rty} / form {form}"), if accepted { "try-mixed:accepted" } else { "try-mixed:rejected" }, &["C23"], src, expect),
+                    ocls.to_string(),
+                    rcls.to_string(),
+                ));
             }
         }
     }
     v
+}
+
+pub fn try_mixed() -> Vec<Tpl> {
+    try_mixed_cases().into_iter().map(|(t, _, _)| t).collect()
 }
 
 // ------------------------------------------------------------------------------------------------
@@ -348,7 +357,8 @@ pub fn size_limits(quick: bool) -> Vec<Tpl> {
     let n = if quick { 300 } else { 3000 };
     v.push(tpl(format!("captures-{n}"), "size-limit", &["C03", "C19"], captures(n), Expect::Out(format!("{}\n", 1 + (0..n).map(|i| (i % 5) as i64).sum::<i64>()))));
     // wide tuple / struct / variant / array literal
-    let n = if quick { 300 } else { 5000 };
+    // (the checker is super-linear in the width: 5000 elements take 20 s and 1.7 GB)
+    let n = if quick { 300 } else { 2000 };
     let elems = (0..n).map(|i| format!("{}", i % 9)).collect::<Vec<_>>().join(", ");
     let pat = (0..n).map(|i| if i == n - 1 { "z".to_string() } else { "_".to_string() }).collect::<Vec<_>>().join(", ");
     v.push(tpl(format!("tuple-{n}"), "size-limit", &["C03"], format!("let t = ({elems})\nlet ({pat}) = t\nprintln(z)\n"), Expect::Out(format!("{}\n", (n - 1) % 9))));
@@ -536,6 +546,16 @@ pub fn fixed() -> Vec<Tpl> {
             "fn tick(n: int) -> int { n + 1 }\ntype Col = | Rgb(r: int, g: int = tick(5)) | Gray\nmatch Col.Rgb(1) {\n    .Rgb(r, g) -> println(r + g)\n    .Gray -> println(0)\n}\n",
             out("7\n"),
         ),
+        // ---- or-patterns in let / for bind through the alternative that matches (ae0a5b4; formerly a VM type fault)
+        tpl(
+            "or-pattern-binding-in-let-and-for",
+            "regression",
+            &["C01"],
+            "type Ee = Aa(int, int) | Bb(int)\nlet (Ee.Aa(_, _) | _) = Ee.Bb(0)\nprintln(\"ok\")\nlet (Ee.Aa(x, _) | Ee.Bb(x)) = Ee.Bb(7)\nprintln(x)\nfor (Ee.Aa(y, _) | Ee.Bb(y)) in [Ee.Aa(1, 2), Ee.Bb(3)] {\n    println(y)\n}\n",
+            out("ok\n7\n1\n3\n"),
+        ),
+        // ---- D102: a default value on a lambda parameter (no call can use it) is reported where it is written
+        tpl("D102 lambda-parameter-default", "regression", &["C19"], "let f = (a: int, b: int = match 2 { 2 -> 5\n _ -> 6 }) -> a + b\nprintln(f(1, 2))\n", Expect::Reject(vec![])),
         tpl("D80 variant-field-default-ill-typed", "regression", &["C03"], "type Col = | Rgb(r: int, g: int = \"s\") | Gray\nprintln(1)\n", Expect::Reject(vec![])),
     ];
     // ---- namespace-qualified functions and constructors as values (A_08, fix 8526476 / f10cb88)
